@@ -398,7 +398,9 @@ class IntervalTier(textgrid_tier.TextgridTier):
                     # so if we've found it, move on
                     break
 
-            newMax = newTier.maxTimestamp - diff
+            # In floating point arithmetic, (max - diff) can land just below
+            # start, even though the erased region lies inside the tier
+            newMax = max(start, newTier.maxTimestamp - diff)
             newTier = newTier.new(entries=newEntryList, maxTimestamp=newMax)
 
         return newTier
